@@ -24,7 +24,7 @@ INVS = ['UtxoViewCorrect', 'SpendResolves', 'HistCorrectF7', 'HistOrdered', 'Our
         'RecoveredCommitted', 'WindowPresent', 'PrunedOnOpen', 'UndoAvailable']
 
 BASE = dict(Active='{1, 2, 3}', MaxBlocks=3, MaxPerBlock=2, MaxForks=0, Activation=2, ReorgLimit=2, Prefetch=2,
-            FlushKinds='{"none", "hist", "full"}', MaxCrashes=0, MaxForced=0, MaxRestarts=0)
+            FlushKinds='{"none", "hist", "full"}', MaxCrashes=0, MaxForced=0, MaxRestarts=0, CbKinds='{"miner"}')
 
 
 def cfg(**kw):
@@ -36,16 +36,20 @@ def cfg(**kw):
 # configurations per property: (name, constants, exhaustive?, budget_s)
 CONFIGS = {
     'C01': {
-        'quick': [('fwd', cfg()), ('coll', cfg(Active='{4, 5, 7, 8}', FlushKinds='{"none", "full"}')),
-                  ('opret', cfg(Active='{9, 10, 12}', Activation=2, FlushKinds='{"none", "full"}'))],
-        'thorough': [('fwd', cfg(MaxBlocks=4)), ('coll', cfg(Active='{4, 5, 6, 7, 8}', MaxBlocks=4, FlushKinds='{"none", "full"}')),
+        'quick': [('fwd', cfg()), ('coll', cfg(Active='{4, 5, 7, 8}', Prefetch=4, FlushKinds='{"none", "full"}')),
+                  # (prefetch limit 4: the block processor takes batches of two blocks, the activation height inside a batch)
+                  ('opret', cfg(Active='{9, 10, 12}', Activation=2, Prefetch=4, FlushKinds='{"none", "full"}'))],
+        'thorough': [('fwd', cfg(MaxBlocks=4, Prefetch=4)), ('coll', cfg(Active='{4, 5, 6, 7, 8}', MaxBlocks=4, FlushKinds='{"none", "full"}')),
                      ('opret', cfg(Active='{9, 10, 12}', MaxBlocks=4)), ('multi', cfg(Active='{1, 11, 12, 9}', MaxBlocks=3))],
     },
     'C02': {
         'quick': [('fwd', cfg()), ('multi', cfg(Active='{9, 11, 12}', FlushKinds='{"none", "hist", "full"}')),
                   # outputs that are unspendable before / spendable from the activation height pay or do not pay a script
-                  ('opret', cfg(Active='{9, 10, 12}', Activation=2, FlushKinds='{"none", "full"}'))],
+                  ('opret', cfg(Active='{9, 10, 12}', Activation=2, Prefetch=4, FlushKinds='{"none", "full"}')),
+                  # coinbases that touch no script hash at all, in front of transactions that do
+                  ('voidcb', cfg(Active='{1, 2}', CbKinds='{"miner", "void"}', FlushKinds='{"none", "full"}'))],
         'thorough': [('fwd', cfg(MaxBlocks=4)), ('multi', cfg(Active='{1, 9, 11, 12}', MaxBlocks=4)),
+                     ('voidcb', cfg(Active='{1, 2, 3}', MaxBlocks=4, CbKinds='{"miner", "void"}', FlushKinds='{"none", "full"}')),
                      ('opret', cfg(Active='{9, 10, 12}', MaxBlocks=4, Activation=2))],
     },
     'C03': {
@@ -205,12 +209,30 @@ def scenarios_from(sc, name, c, quick, seed, rng, out):
     return kept
 
 
+def batch_weight(evs):
+    '''(longest run of advances without a poll in between, transactions mined before the first poll)'''
+    best = cur = 0
+    for e in evs:
+        if e['e'] == 'advance':
+            cur += 1
+            best = max(best, cur)
+        elif e['e'] == 'poll':
+            cur = 0
+    early = 0
+    for e in evs:
+        if e['e'] == 'poll':
+            break
+        if e['e'] == 'mine':
+            early += len(e.get('txs', []))
+    return (best, early)
+
+
 def interesting(evs):
     kinds = [e['e'] for e in evs]
     return (kinds.count('fork') + kinds.count('switch') + kinds.count('force'), kinds.count('mine'), len(evs))
 
 
-TLC_BUDGET = int(os.environ.get('VERIF_TLC_BUDGET_S', '900'))     # thorough tier: breadth-first budget per configuration
+TLC_BUDGET = int(os.environ.get('VERIF_TLC_BUDGET_S', '600'))     # thorough tier: breadth-first budget per configuration
 SCAL_FIELDS = ('memh', 'txc', 'uc', 'nc', 'nd', 'nu', 'npu', 'hfc', 'dbh', 'fsh')
 
 
@@ -257,10 +279,16 @@ def check(pid, tier, seed):
             # 2. scenarios
             scns = scenarios_from(sc, name, c, quick, seed, rng, out)
             scns.sort(key=interesting, reverse=True)
-            take = scns[:(40 if quick else 400)]
+            take = scns[:(30 if quick else 300)]
             rest = scns[len(take):]
+            # a stratum of its own: several blocks fetched and advanced in one batch (no poll in between), the more
+            # transactions in them the better - the property quantifies over every fetch batching
+            batched = sorted((e for e in rest if batch_weight(e)[0] >= 2), key=batch_weight, reverse=True)[:(20 if quick else 200)]
+            take += batched
+            ids_ = set(map(id, take))
+            rest = [e for e in rest if id(e) not in ids_]
             rng.shuffle(rest)
-            take += rest[:(40 if quick else 400)]
+            take += rest[:(30 if quick else 300)]
             p = params_of(c)
             for evs in take:
                 jobs.append((evs, p, None, None, None))
